@@ -286,6 +286,26 @@ def run_case(i, tier):
         if kind and kind not in seen:
             seen.add(kind)
             out["viols"].append(_viol(kind, model, i, msg, path, None, pred))
+    # by_bloc=False must return the same aggregate profile as by_bloc=True under the same random outcomes (slice of the cases)
+    if model in BLOC_MODELS and bound is None and isinstance(i, int) and i % 4 == 0 and not out["viols"]:
+        extra = dict(ex)
+        if model == "CambridgeSampler":
+            extra["path"] = gens.cambridge_table_path()
+
+        def fn_flat():
+            g = gens.build_generator(model, p, **extra)
+            return gens.generate(model, g, N, False)
+
+        flat = {}
+        for path in chooser.explore(fn_flat, max_paths=MAX_PATHS):
+            cnt["executions"] += 1
+            flat[path.choices] = None if path.exc is not None else gens.profile_key(path.result)
+        withb = {path.choices: (None if path.exc is not None else gens.profile_key(path.result[1])) for path in paths}
+        if flat != withb:
+            diff = [c for c in set(flat) | set(withb) if flat.get(c) != withb.get(c)][:1]
+            out["viols"].append(_viol("by_bloc_flag", model, i,
+                                      f"generate_profile(by_bloc=False) and the aggregate of by_bloc=True differ under the same random outcomes {diff}"))
+        cnt["by_bloc_false_comparisons"] += 1
     cnt["paths"] += npaths
     cnt["states"] += 1
     if npaths > 1:
